@@ -121,9 +121,31 @@ for _k, _v in _EXTRA.items():
 CLAIMED["C07"]["technique"] = "loop-bound analysis + call-graph reachability (R-BOUND/R-SPAN/R-HISTORY) + symbolic summary of the resume scan with polyhedra entailment"
 CLAIMED["C11"]["technique"] = "value numbering of the post-state + typestate/ordering rules + symbolic summary of the resume scan with polyhedra entailment (result == m)"
 
+# ---- additions after seeding round 5 and the two late repairs of /repo
+_EXTRA2 = {
+    "C01": " The fill step (R-FILL, R-FILLPATH: one symbolic iteration of the scan; flat candles at the previous candle's RAW close) and Hexital.append (every manager gets all the given candles; afterwards every indicator resumes through calculate()) are decided here too; the resume scan is exact (result == m), since re-entering a calculated candle overwrites helper series.",
+    "C02": " The collapse walk takes no parameters and the fill step does the same thing on every pass (R-CONSERVE, R-FILLPATH, R-FILL): a fill candle never appears later between closed buckets; the resume scan is exact.",
+    "C04": " Also: helper series are named after the instance (R-NS); inputs come through the one resolver (R-CONTRACT: candle attributes incl. derived measures, then indicators, then sub_indicators); Hexital.append resumes every indicator through calculate().",
+    "C05": " Also: helper series are named after the instance (R-NS); inputs come through the one resolver (R-CONTRACT); Hexital.append resumes every indicator through calculate().",
+    "C06": " Also: helper series are named after the instance (R-NS); inputs come through the one resolver (R-CONTRACT); Hexital.append resumes every indicator through calculate().",
+    "C08": " Also: the candle_manager setter copies the manager's four configuration attributes (what `settings` reports); Hexital.append hands every manager all the given candles (a filtering comprehension / slice is a witness, an unknown transformation is undecided).",
+    "C09": " Also: every stored reading, helpers included, is rounded on every arm of the drivers (R-ROUND): the `!= 0` guards in front of the divisions protect them only down to the rounding quantum.",
+    "C12": " The fill step is decided from one symbolic iteration (in-place scan: examined pair, insert position, step, first position, end condition; forward-pass builder: chain tail, exit condition); the flat price is the previous candle's RAW close (with a candlestick type the previous candle may already be converted on a re-collapse); the bucket-edge helpers agree on the grid (R-EPOCH). Bulk rewrites (computed run lengths) are undecided.",
+    "C14": " The resume scan is exact (result == m): calculate() again never re-enters a calculated candle.",
+    "C15": " The resume scan is exact (result == m): with a window of [previous, new] the previous candle is not re-entered (that used to overwrite helper series; repaired in 1020d13); formulas keep no state keyed by list positions (R-STATE).",
+    "C16": " Also: candle geometry is computed from the current prices on every access (R-GEOM, R-STATE) and the index helpers treat i and i - n alike (R-CONTRACT).",
+    "C18": " fromtimestamp(s, tz) with a possibly-None tz counts as a conversion to the process zone.",
+    "C19": " Also: every conversion saves the raw values first (typestate), so Candle objects reach other managers as raw copies and the three encodings stay equivalent.",
+    "C20": " Also: every indicator's manager is the one registered for its timeframe (R-BIND, R-REGISTRY), so Hexital.reading and Indicator.reading look at the same candles.",
+}
+for _k, _v in _EXTRA2.items():
+    CLAIMED[_k]["text"] = CLAIMED[_k]["text"] + _v
+
 # ---- common preamble about the front end (after the refactoring rounds)
 _FRONT = (" Front end: every module is parsed, canonicalised (hexlint/normalize.py) and helpers that are not part of the pinned decomposition are inlined "
           "(hexlint/inline.py) before the rules run, so behaviour-preserving restructurings (extract method, guard clauses, loops vs all/any/next/sum, renamed locals, "
-          "positional vs keyword arguments) present the same program to the rules; a shape the analysis cannot follow is reported as ANALYSIS-ERROR (exit 2), never as a violation.")
+          "positional vs keyword arguments, match statements, assignment expressions, small value classes / enums / lookup tables, methods moved to functions and modules) "
+          "present the same program to the rules; a shape the analysis cannot follow, or a report inside a function that relies on a helper class that could not be dissolved, "
+          "is ANALYSIS-ERROR (exit 2, 'cannot decide'), never a violation.")
 for _k in CLAIMED:
     CLAIMED[_k]["note"] = CLAIMED[_k]["note"] + _FRONT
